@@ -12,6 +12,9 @@ import sys
 import tokenize
 
 
+TIME_LIMIT = 0.5
+
+
 class Timeout(Exception):
     pass
 
@@ -55,7 +58,7 @@ def run_one(P, source: str, verbose=False, call_invalid=False):
     tk = Tokenizer(tokenize.generate_tokens(io.StringIO(source).readline))
     p = P(tk, verbose=verbose)
     p.call_invalid_rules = call_invalid
-    signal.setitimer(signal.ITIMER_REAL, 2.0)
+    signal.setitimer(signal.ITIMER_REAL, TIME_LIMIT)
     try:
         res = p.start()
         return {"kind": "ok", "value": canon(res), "mark": tk.mark(), "fetched": len(tk._tokens),
@@ -92,9 +95,16 @@ def main():
             out.append({"build_error": f"{type(e).__name__}: {str(e)[:200]}"})
             continue
         res = []
+        dead = False
         for src in job["inputs"]:
             sys.stdout = io.StringIO()
-            res.append(run_one(P, src, verbose=job.get("verbose", False), call_invalid=job.get("call_invalid", False)))
+            if dead:
+                res.append({"kind": "skipped"})
+                continue
+            one = run_one(P, src, verbose=job.get("verbose", False), call_invalid=job.get("call_invalid", False))
+            res.append(one)
+            if one["kind"] in ("timeout", "memory"):
+                dead = True         # a looping parser: do not burn the budget on the remaining inputs
         out.append({"results": res, "keywords": list(P.KEYWORDS), "soft_keywords": list(P.SOFT_KEYWORDS)})
     sys.stdout = real_stdout
     json.dump(out, sys.stdout)
